@@ -33,7 +33,7 @@ MANIFEST = {
 
 
 def plan(tier):
-    t = 300 if tier == "quick" else 2400
+    t = 300 if tier == "quick" else 900
     n = N_FUN_SHAPES + 1
     if tier == "quick":
         rp = [f"0:{c},1:{u},2:{r}" for c in range(2) for u in range(2) for r in range(3)]
